@@ -4,10 +4,18 @@ import json, os, subprocess
 ROOT = os.path.dirname(os.path.dirname(os.path.abspath(__file__)))
 props = [json.loads(l) for l in open(os.path.join(ROOT, 'properties.jsonl'))]
 
-COMMON_NOTE = ('Sources are analysed in a canonical form (fjsa/canon.py: single-use temporaries inlined, positive guards, < / <= comparisons, '
-               'conventional import aliases, x += e, positional prefix, early-exit instead of else) so that behaviour-preserving rewrites do '
-               'not change a verdict. The thorough tier adds self-validation: the corpus mutants of the property must be reported, its '
-               'neutral twins and 12 whole-repo neutral transformations must stay silent (failure = exit 2, checker broken). '
+COMMON_NOTE = ('Sources are analysed in a canonical form (fjsa/canon.py + fjsa/inline.py: single-use temporaries inlined, positive guards, < / <= '
+               'comparisons, conventional import aliases, x += e, positional prefix, early-exit instead of else, tuple assignments split, helpers '
+               'that the pinned tree does not have inlined at their call sites) so that behaviour-preserving rewrites do not change a verdict. '
+               'Pattern rules claim a VIOLATION only in functions that still have the shape they were confirmed against (statement multiset '
+               'within 6 statements of fjsa/known_shapes.json); in a function rewritten beyond that, or where a rule does not recognise the new '
+               'code, the obligation is printed as NOT-DECIDED, recorded in the evidence file and does not change the exit code (exact rules - '
+               'forwarding, lints, purity, donation scope, key linearity, failure-path renames - always decide). On the pinned tree nothing is '
+               'ever NOT-DECIDED: there an undecided obligation, an unmet instance floor or a missing anchor is exit 2, and a public anchor '
+               'that is gone is exit 2 on any tree. The thorough tier adds self-validation: the corpus mutants and the stored agent-written '
+               'breaking changes of the property (/verif/seeded) must be reported, its neutral twins, 13 whole-repo neutral transformations '
+               'and the stored agent-written refactors (/verif/refactors) must not raise a VIOLATION, and the fail-closed behaviour is '
+               're-tested (failure = exit 2, checker broken). '
                'Trusted base: CPython ast; the hand-built CFG / reaching-definitions / resolver in /verif/fjsa; '
                'JAX and numpy semantics listed as assumptions in the evidence file. User-supplied callables are opaque.')
 
@@ -204,25 +212,26 @@ NA_REASON = {}
 
 # rules added while testing against seeded changes (DESIGN.md sections 9.5-9.7), appended to the claim text
 EXTRA = {
- 'C01': 'Also: optimizer results flow into the returned state; the local step-count structure (shared with C04) and the pmap padding-step selection (shared with C02).',
- 'C02': 'Also: padding values are zeros_like of their template (dtype kept); no [0]/[-1] on the client list outside the per-block loop or an emptiness guard.',
+ 'C03': 'Also: Bucket sizes are exact floor halves computed without floating point; an Iterable chain is materialised before it is stored.',
+ 'C01': 'Also: optimizer results flow into the returned state; the local step-count structure (shared with C04) and the pmap padding-step selection (shared with C02). The cohort is passed on whole (no filtered comprehension over the clients); model builders forward train / eval keyword arguments to the pass they belong to.',
+ 'C02': 'Also: padding values are zeros_like of their template (dtype kept); no [0]/[-1] on the client list outside the per-block loop or an emptiness guard. The block sort key is the batch count only; no memoised function reads the backend selection; the setter stores the choice on every path.',
  'C04': 'Also: the index array has the element type of the permutation buffer (>= 32 bit); dataclass replace() forwards its overrides unfiltered; hparams built from flags take each flag value unmodified.',
- 'C05': 'Also: the evaluation loop merges every batch (no break / skipped iteration); the average-loss evaluators end in safe_div (shared with C06).',
- 'C06': 'Also: once the regulariser is added the value does not flow into a reduction; nobody hands a regulariser to the factory of the known finding; per-domain means use safe_div; pair sums are not modified between accumulation and normalisation.',
+ 'C05': 'Also: the evaluation loop merges every batch (no break / skipped iteration); the average-loss evaluators end in safe_div (shared with C06). Every metric field takes part in equality / hash (static jit argument); accumulators are numbers, not booleans; the per-domain identity has the domain axis.',
+ 'C06': 'Also: once the regulariser is added the value does not flow into a reduction; nobody hands a regulariser to the factory of the known finding; per-domain means use safe_div; pair sums are not modified between accumulation and normalisation. Every result of evaluate_average_loss goes through the finalizer; no raw division by the cohort example count in Mime / MimeLite.',
  'C07': 'Also: aggregators do not filter clients before the mean; tree_sum/tree_mean accumulate in first-copy-then-add form with owned accumulators.',
  'C08': 'Also: Optional bounds are tested with `is None`, never by truthiness; every query of a view runs on its own cursor.',
- 'C09': 'Also: the temporary file is closed before it is renamed; the removal list is every checkpoint but the newest `keep`; load_state returns the unpickled object unconverted; no file of the run is opened in append mode; the round-indexed sampler rules of C13.',
- 'C10': 'Also: state constructor / replace() arguments are not views, iterators, generators or handles (a state must pickle and be a pytree).',
- 'C11': 'Also: a state rebuilt with .replace() gets a fresh key; tree_mean and its zero-guarded normaliser (shared with C07).',
- 'C12': 'Also: HypCluster carries the updated optimizer state; Mime evaluates the control variate with the key of the step.',
- 'C13': 'Also: shuffled_clients builds one RandomState(seed) unconditionally (no truthiness test of the seed) and iterates ids in sorted order.',
- 'C14': 'Also: cross entropy takes log-probabilities from log_softmax (never log(softmax)); the confusion matrix puts one count at [target, argmax].',
- 'C15': 'Also: the per-client cursor is assigned in every iteration before it is read (must-assign dataflow over the loop body); concat_examples appends every piece; the no-copy arm of RepeatableIterator is limited to builtin re-iterable containers.',
- 'C16': 'Also: NumPy scalars come back through ar[()]; every INSERT of the builder is committed before the method returns; no cursor is stored on a view; load_state returns the unpickled object unconverted.',
- 'C17': 'Also: no function of apfl.py writes into a state table it was given; the sliding window keeps its length; HypCluster leaves empty clusters untouched.',
- 'C18': 'Also: no shortcut return in one rotation direction only; the einsum / tensordot axis schedule; no module-level caches; divisions only by shape-derived lengths.',
- 'C19': 'Also: the download / decompress loops do not swallow read errors and require end-of-stream; a stale temporary file is removed or truncated before rebuilding.',
- 'C20': 'Also: constants are folded at the arguments the task actually passes; the look-up table fill value is the OOV label; crop arguments are not swapped; logits are transposed (not reshaped) back to batch-major; the default vocabulary size reaches the loader unmodified.',
+ 'C09': 'Also: the temporary file is closed before it is renamed; the removal list is every checkpoint but the newest `keep`; load_state returns the unpickled object unconverted; no file of the run is opened in append mode; the round-indexed sampler rules of C13. Divisions after the round loop are zero-guarded (a resumed run may have no rounds left); no ordered sequence is built from a set.',
+ 'C10': 'Also: state constructor / replace() arguments are not views, iterators, generators or handles (a state must pickle and be a pytree). Donation is declared only in tree_util.py / for_each_client.py; a state field initialised with a numpy array is not updated through an augmented assignment on an alias.',
+ 'C11': 'Also: a state rebuilt with .replace() gets a fresh key; tree_mean and its zero-guarded normaliser (shared with C07). No counter or list that outlives one apply() (hidden-state rule of C10 on the compression modules); loops carry their accumulator (R-LOOPCARRY).',
+ 'C12': 'Also: HypCluster carries the updated optimizer state; Mime evaluates the control variate with the key of the step. No module-level cache or in-place update of a state list in the algorithm modules; the weight total is accumulated per stream occurrence, not per client id.',
+ 'C13': 'Also: shuffled_clients builds one RandomState(seed) unconditionally (no truthiness test of the seed) and iterates ids in sorted order. Reading a stream of clients does not permute the id list of the dataset; the population is never ordered through a set.',
+ 'C14': 'Also: cross entropy takes log-probabilities from log_softmax (never log(softmax)); the confusion matrix puts one count at [target, argmax]. The ConfusionMatrix length check rejects exactly the unequal pairs (guard tabulated over a finite domain); weights may be the inlined get_target_weight call.',
+ 'C15': 'Also: the per-client cursor is assigned in every iteration before it is read (must-assign dataflow over the loop body); concat_examples appends every piece; the no-copy arm of RepeatableIterator is limited to builtin re-iterable containers. The bucket rule of the final batch (shared with C03).',
+ 'C16': 'Also: NumPy scalars come back through ar[()]; every INSERT of the builder is committed before the method returns; no cursor is stored on a view; load_state returns the unpickled object unconverted. The state file is published by rename on the normal path only (never from a finally / except block); CREATE TABLE is unconditional.',
+ 'C17': 'Also: no function of apfl.py writes into a state table it was given; the sliding window keeps its length; HypCluster leaves empty clusters untouched. The per-domain counts entering the window are the unmodified sum over the clients.',
+ 'C18': 'Also: no shortcut return in one rotation direction only; the einsum / tensordot axis schedule; no module-level caches; divisions only by shape-derived lengths. The factorisation loop stops at 1 (strict test); the diagonal of signs is never sign() of a continuous draw.',
+ 'C19': 'Also: the download / decompress loops do not swallow read errors and require end-of-stream; a stale temporary file is removed or truncated before rebuilding. Published files are written through buffered writers; no publishing rename in a finally / except block.',
+ 'C20': 'Also: constants are folded at the arguments the task actually passes; the look-up table fill value is the OOV label; crop arguments are not swapped; logits are transposed (not reshaped) back to batch-major; the default vocabulary size reaches the loader unmodified. Accepted crop sizes are exactly 1..32 (guard tabulated); every snippet is written and counted; a value computed for a module argument reaches the constructor.',
 }
 FORWARD_NOTE = (' Cross-cutting R-FORWARD (functions scoped per property in rules/forward.py): every parameter is read or explicitly discarded, same-named '
                 'parameters are passed on to repository callees, optional numbers are not tested by truthiness, same-named arguments are not '
@@ -245,7 +254,7 @@ def main():
       'replay_cmd_template': f'./check {pid} --replay {{path}}',
       'engine': 'fjsa',
       'level_claimed': {'category': 'other', 'text': c['text'] + (' ' + EXTRA[pid] if pid in EXTRA else '') + FORWARD_NOTE,
-                        'design_ref': c['design'] + '; sections 9.5-9.7'},
+                        'design_ref': c['design'] + '; sections 9.5-9.10'},
       'level_note': c.get('note', '') + ('' if not c.get('note') else ' ') + COMMON_NOTE,
       'technique': c['technique'],
     })
